@@ -15,6 +15,21 @@ func init() {
 			a.c15VerifyTable("P.tag-table")
 			a.c15Writers()
 			a.c15RestoreOnReject("S.tag-restore")
+			// fragments are read with the parser of the version the conversation speaks (the tag-checking one under v3)
+			if f := a.MustFn("(*Conversation).parseFragmentPrefix"); f != nil {
+				n := 0
+				for _, g := range a.ownedFns(f) {
+					for _, b := range g.Blocks {
+						for _, in := range b.Instrs {
+							if call, ok := in.(ssa.CallInstruction); ok && call.Common().IsInvoke() && call.Common().Method.Name() == "parseFragmentPrefix" {
+								n++
+								a.TermIs("G.v3-fragment", "Conversation.parseFragmentPrefix|version", "prefix parser of the committed version", call, call.Common().Value, "Conversation.version")
+							}
+						}
+					}
+				}
+				a.R.Check(n == 1, "G.v3-fragment", "Conversation.parseFragmentPrefix|dispatch", "one dispatch to the version's prefix parser", a.C.Pos(f.Pos()), fmt.Sprintf("%d", n))
+			}
 			// tags are read as 32-bit hexadecimal numbers, without silent truncation of longer fields
 			a.narrowings("U.narrow", false)
 			if f := a.MustFn("parseItag"); f != nil {
@@ -209,6 +224,48 @@ func (a *An) c15Writers() {
 		}
 		a.R.Check(isRestore, "W.peer-tag", key, "outside verifyInstanceTags the peer tag is only restored from a snapshot", a.C.InstrPos(st),
 			fn+" stores "+a.C.Term(st.Val)+" into theirInstanceTag")
+		// ... and only when the message or fragment was refused (an unconditional restore un-binds every accepted one)
+		if isRestore {
+			cond := false
+			for _, fact := range a.F.LocalAt(st).List() {
+				if strings.HasPrefix(fact, "@fail:") || strings.HasPrefix(fact, "fail:") || strings.HasPrefix(fact, "passed:!") || strings.HasSuffix(fact, " != nil)") {
+					cond = true
+				}
+			}
+			// or structurally: the store is on the "error is not nil" / "not ok" side of a dominating test
+			for b := st.Block(); b != nil && !cond; b = b.Idom() {
+				d := b.Idom()
+				if d == nil {
+					break
+				}
+				iff, isIf := d.Instrs[len(d.Instrs)-1].(*ssa.If)
+				if !isIf {
+					continue
+				}
+				side := -1
+				if d.Succs[0] == b || d.Succs[0].Dominates(b) && !d.Succs[1].Dominates(b) {
+					side = 0
+				} else if d.Succs[1] == b || d.Succs[1].Dominates(b) {
+					side = 1
+				}
+				switch c := iff.Cond.(type) {
+				case *ssa.BinOp:
+					errCmp := (isNilConst(c.Y) && isErrorType(c.X.Type())) || (isNilConst(c.X) && isErrorType(c.Y.Type()))
+					if errCmp && (c.Op == token.NEQ && side == 0 || c.Op == token.EQL && side == 1) {
+						cond = true
+					}
+				case *ssa.UnOp:
+					if c.Op == token.NOT && side == 0 {
+						cond = true
+					}
+				default:
+					if isBoolType(iff.Cond.Type()) && side == 1 {
+						cond = true // the "not ok" side of a plain bool verdict
+					}
+				}
+			}
+			a.R.Check(cond, "W.peer-tag", key+"|on-reject", "the snapshot is restored on the rejecting path only", a.C.InstrPos(st), fn+" restores the peer tag without a refusal on the way: accepting a message or fragment never binds the conversation to its sender")
+		}
 	}
 	a.R.Floor("W.peer-tag", 1)
 }
